@@ -154,7 +154,10 @@ func (w *World) Apply(ev *Event) Result {
 		}
 		return Result{Err: err}
 	case "check":
-		// pure observation point for enumerating oracles (C12/C14/C15...)
+		// pure observation point for enumerating oracles (C12/C14/C15...); also carries "nothing delivered" faults
+		if ev.Fault != "" {
+			w.Stats.Fault(ev.Fault)
+		}
 		return Result{}
 	}
 	return Result{Err: fmt.Errorf("unknown event kind %q", ev.Kind), Skipped: true}
